@@ -33,7 +33,7 @@ inductive RqStmt
 
 structure RqEnv where
   waitCancelled : Bool
-  tg : TopicGen
+  pol : TopicPolicy     -- GeneratePublishTopic, applied to the message object in its CURRENT state
   dest : POut
 
 structure RqSt where
@@ -60,7 +60,7 @@ def atoiGo (s : Str) : Int × Bool :=
 
 def rqExec1 (env : RqEnv) : RqStmt → RqSt → RqR
   | .delayWait, s => if env.waitCancelled then .done s true else .cont s
-  | .genTopic, s => match env.tg with
+  | .genTopic, s => match env.pol s.msg with
     | .ok t => .cont { s with topic := some t, err := false }
     | .err => .cont { s with topic := none, err := true }
   | .ifErrReturn, s => if s.err then .done s true else .cont s
